@@ -2,8 +2,15 @@
 Local semantic contracts L1-L3 of the real handlers and of the queue (unbounded); M: Dijkstra."""
 from ..common import Report, Ob
 from ..pyvc import verify as V
-from ..contracts import handlers
+from ..contracts import handlers, percolation
 from . import util
+
+
+def reg_perc():
+    r = V.Registry()
+    for c in percolation.contracts():
+        r.add(c)
+    return r
 
 
 def reg():
@@ -16,7 +23,11 @@ def reg():
 
 def run(tier, seed):
     rep = Report('C11', tier, seed)
-    rep.add_unit_results(util.run_jobs(util.jobs_for(reg, tier=tier)))
+    jobs = util.jobs_for(reg, tier=tier) + util.jobs_for(reg_perc, tier=tier, quals={
+        'nonMarkov_directed_percolate_network_with_timing', 'nonMarkov_directed_percolate_network', '_out_component_'})
+    rep.add_unit_results(util.run_jobs(jobs))
+    rep.not_covered += ['directed_percolate_network / get_infected_nodes bodies (delegation binding only, see C17)',
+                        'fast_nonMarkov_SIR main body and fast_SIR: see C01 / C04 (same contracts)']
     rep.assumptions += [
         'M (cited): min-first processing of events under L1 (no lost relaxation), L2 (no spurious event), L3 (infect iff susceptible, at the event time, recovery = time + duration) infects v at tmin + shortest-path distance in the kept-edge digraph, infector = predecessor on such a path (Dijkstra)',
         'user delay/duration rules return values >= 0 (possibly infinite); heapq pops a minimal (time, counter) item',
